@@ -4,7 +4,7 @@ CONSTANTS Strategy = "rename"
           Locking = TRUE
           KeepEmpty = TRUE
           MaxSec = 1
-          MaxMod = 6
+          MaxMod = 4
 INVARIANTS EventuallyVisible ObserversNotified NoFatal GettersTotal MergeKeepsOthers CommentsAndOrderSurvive WriteReadBack WriteReadBackMem AtomicOnDisk WriteInstalls
 PROPERTY NotifyAfterApply
 CHECK_DEADLOCK FALSE
